@@ -553,6 +553,11 @@ class NumpyCodegenMapper(CachedMapper[str, Never, []]):
         return self._record_line_and_return_lhs(lhs, rhs)
 
     def map_named_array(self, expr: NamedArray) -> str:
+        if not isinstance(expr._container, DictOfNamedArrays):
+            # results of function calls, loopy calls, ...
+            raise NotImplementedError(
+                f"'{type(expr._container).__name__}' results are not "
+                "supported by the numpy-like target")
         return self.rec(expr.expr)
 
     def map_dict_of_named_arrays(self, expr: DictOfNamedArrays) -> str:
